@@ -750,4 +750,251 @@ theorem seenDefaultOnly_iff (t : Tr) (ps : List (Str × Str)) (inv : TrInv t ps)
       simp [seenDefaultOnly, hseen, hrest, he, htr']
 
 
+/-! ### `dedup` -/
+
+theorem mem_dedup (a : Str) : ∀ l : List Str, a ∈ dedup l ↔ a ∈ l
+  | [] => by simp [dedup]
+  | x :: xs => by
+    unfold dedup
+    by_cases hx : xs.contains x = true
+    · simp only [hx, if_true, mem_dedup a xs, List.mem_cons]
+      constructor
+      · exact Or.inr
+      · rintro (rfl | h)
+        · simpa using hx
+        · exact h
+    · have hx' : xs.contains x = false := by simpa using hx
+      simp only [hx', Bool.false_eq_true, if_false, List.mem_cons, mem_dedup a xs]
+
+theorem nodup_dedup : ∀ l : List Str, (dedup l).Nodup
+  | [] => by simp [dedup]
+  | x :: xs => by
+    unfold dedup
+    by_cases hx : xs.contains x = true
+    · simp only [hx, if_true]; exact nodup_dedup xs
+    · have hx' : xs.contains x = false := by simpa using hx
+      simp only [hx', Bool.false_eq_true, if_false, List.nodup_cons, mem_dedup]
+      exact ⟨by simpa using hx, nodup_dedup xs⟩
+
+section Multiset
+open List
+
+/-! ### unlabeled choices, with multiplicities -/
+
+def noLabelW (nr : Nat × PRow) : Option W := if !keyIn nr.2 "label" then some (W.choiceNoLabel nr.1) else none
+
+theorem choiceListWarnings_eq : ∀ (opts : List (Nat × PRow)) (ws : List W), choiceListWarnings opts = .ok ws →
+    ws = opts.filterMap noLabelW
+  | [], ws, h => by simp [choiceListWarnings] at h; subst h; rfl
+  | (n, r) :: rest, ws, h => by
+    unfold choiceListWarnings at h
+    split at h
+    · cases h
+    · cases hr : choiceListWarnings rest with
+      | error e => simp [hr] at h
+      | ok ws' =>
+        simp only [hr, Except.ok.injEq] at h
+        have ih := choiceListWarnings_eq rest ws' hr
+        subst h
+        by_cases hl : keyIn r "label" = true
+        · simp [hl, ih, noLabelW, List.filterMap_cons]
+        · have hl' : keyIn r "label" = false := by simpa using hl
+          simp [hl', ih, noLabelW, List.filterMap_cons]
+
+theorem choicesWarnings_eq : ∀ (gs : List (Str × List (Nat × PRow))) (ws : List W), choicesWarnings gs = .ok ws →
+    ws = (gs.flatMap (·.2)).filterMap noLabelW
+  | [], ws, h => by simp [choicesWarnings] at h; subst h; rfl
+  | (ln, opts) :: rest, ws, h => by
+    unfold choicesWarnings at h
+    cases h1 : choiceListWarnings opts with
+    | error e => simp [h1] at h
+    | ok w1 =>
+      cases h2 : choicesWarnings rest with
+      | error e => simp [h1, h2] at h
+      | ok w2 =>
+        simp only [h1, h2, Except.ok.injEq] at h
+        subst h
+        simp [choiceListWarnings_eq opts w1 h1, choicesWarnings_eq rest w2 h2, List.flatMap_cons, List.filterMap_append]
+
+def hasList (nr : Nat × PRow) : Bool := (val1 nr.2 "list name").isSome
+
+theorem choiceDue_eq (rows : List (Nat × PRow)) : choiceDue rows = (rows.filter hasList).filterMap noLabelW := by
+  unfold choiceDue
+  induction rows with
+  | nil => rfl
+  | cons nr rows ih =>
+    by_cases hh : hasList nr = true
+    · have : (val1 nr.2 "list name").isSome = true := hh
+      simp only [List.filterMap_cons, List.filter_cons, hh, if_true, this, Bool.true_and, noLabelW, ih]
+    · have hh' : hasList nr = false := by simpa using hh
+      have : (val1 nr.2 "list name").isSome = false := hh'
+      simp only [List.filterMap_cons, List.filter_cons, hh', this, Bool.false_and, Bool.false_eq_true, if_false, ih]
+
+theorem gupd_perm (ln : Str) (nr : Nat × PRow) : ∀ acc : List (Str × List (Nat × PRow)),
+    (acc.map (·.1)).Nodup → (∃ e ∈ acc, e.1 = ln) →
+    (acc.map fun e => if e.1 = ln then (e.1, e.2 ++ [nr]) else e).flatMap (·.2) ~ acc.flatMap (·.2) ++ [nr]
+  | [], _, h => by obtain ⟨e, he, _⟩ := h; cases he
+  | e :: rest, hnd, h => by
+    simp only [List.map_cons, List.nodup_cons] at hnd
+    by_cases hk : e.1 = ln
+    · have hrest : (rest.map fun e => if e.1 = ln then (e.1, e.2 ++ [nr]) else e) = rest := by
+        conv => rhs; rw [← List.map_id rest]
+        apply List.map_congr_left
+        intro e' he'
+        have : e'.1 ≠ ln := by
+          intro h'; apply hnd.1; rw [hk, ← h']; exact List.mem_map.mpr ⟨e', he', rfl⟩
+        simp [this]
+      simp only [List.map_cons, hk, if_true, List.flatMap_cons, hrest]
+      rw [List.append_assoc, List.append_assoc]
+      exact List.Perm.append_left _ List.perm_append_comm
+    · obtain ⟨e0, he0, hk0⟩ := h
+      have hin : ∃ e ∈ rest, e.1 = ln := by
+        rcases List.mem_cons.mp he0 with rfl | h'
+        · exact absurd hk0 hk
+        · exact ⟨e0, h', hk0⟩
+      have ih := gupd_perm ln nr rest hnd.2 hin
+      simp only [List.map_cons, hk, if_false, List.flatMap_cons, List.append_assoc]
+      exact List.Perm.append_left _ ih
+
+theorem gstep_perm (acc : List (Str × List (Nat × PRow))) (nr : Nat × PRow) (hnd : (acc.map (·.1)).Nodup) :
+    (gstep acc nr).flatMap (·.2) ~ acc.flatMap (·.2) ++ (if hasList nr then [nr] else []) ∧
+      ((gstep acc nr).map (·.1)).Nodup := by
+  unfold gstep hasList
+  cases hln : val1 nr.2 "list name" with
+  | none => simp [hnd]
+  | some ln =>
+    simp only [Option.isSome_some, if_true]
+    split
+    · rename_i hany
+      simp only [List.any_eq_true, decide_eq_true_eq] at hany
+      refine ⟨gupd_perm ln nr acc hnd hany, ?_⟩
+      have : (acc.map fun e => if e.1 = ln then (e.1, e.2 ++ [nr]) else e).map (·.1) = acc.map (·.1) := by
+        rw [List.map_map]; apply List.map_congr_left; intro e _; simp only [Function.comp]; split <;> rfl
+      rw [this]; exact hnd
+    · rename_i hany
+      simp only [List.any_eq_true, decide_eq_true_eq, not_exists, not_and] at hany
+      refine ⟨by simp, ?_⟩
+      rw [List.map_append, List.nodup_append]
+      refine ⟨hnd, by simp, ?_⟩
+      intro a ha b hb
+      simp only [List.map_cons, List.map_nil, List.mem_singleton] at hb
+      rw [List.mem_map] at ha
+      obtain ⟨e, he, rfl⟩ := ha
+      rw [hb]; exact hany e he
+
+theorem foldl_gstep_perm : ∀ (rows : List (Nat × PRow)) (acc : List (Str × List (Nat × PRow))),
+    (acc.map (·.1)).Nodup → (rows.foldl gstep acc).flatMap (·.2) ~ acc.flatMap (·.2) ++ rows.filter hasList
+  | [], acc, _ => by simp
+  | nr :: rows, acc, hnd => by
+    obtain ⟨h1, h2⟩ := gstep_perm acc nr hnd
+    have ih := foldl_gstep_perm rows (gstep acc nr) h2
+    simp only [List.foldl_cons]
+    refine ih.trans ?_
+    refine (List.Perm.append_right _ h1).trans ?_
+    by_cases hh : hasList nr = true
+    · simp [hh, List.filter_cons]
+    · have hh' : hasList nr = false := by simpa using hh
+      simp [hh', List.filter_cons]
+
+/-- unlabeled-choice warnings, as a multiset -/
+theorem choice_no_label_perm (rows : List (Nat × PRow)) (ws : List W)
+    (h : choicesWarnings (groupChoices rows) = .ok ws) : ws ~ choiceDue rows := by
+  rw [choicesWarnings_eq _ ws h, choiceDue_eq, groupChoices_eq]
+  apply List.Perm.filterMap
+  have := foldl_gstep_perm rows [] (by simp)
+  simpa using this
+
+/-! ### missing translations, with multiplicities -/
+
+theorem trHead_cols_nodup (tbl : Aliases) (t : Tr) (hd : List Str) (h : t.cols.Nodup) : (trHead tbl t hd).cols.Nodup := by
+  unfold trHead
+  split
+  · exact h
+  · split
+    · exact h
+    · rename_i name _
+      simp only
+      by_cases hc : t.cols.contains name = true
+      · simp only [hc, if_true]; exact h
+      · have hc' : t.cols.contains name = false := by simpa using hc
+        simp only [hc', Bool.false_eq_true, if_false]
+        rw [List.nodup_append]
+        refine ⟨h, by simp, ?_⟩
+        intro a ha b hb
+        simp only [List.mem_singleton] at hb
+        subst hb
+        intro hab; subst hab
+        simp at hc'; exact hc' ha
+
+theorem findTranslations_cols_nodup (tbl : Aliases) (hs : List (List Str)) : (findTranslations tbl hs).cols.Nodup := by
+  unfold findTranslations
+  have : ∀ (hs : List (List Str)) (t : Tr), t.cols.Nodup →
+      (hs.foldl (fun t h => trHead tbl t (trStrip h)) t).cols.Nodup := by
+    intro hs
+    induction hs with
+    | nil => intro t h; exact h
+    | cons hd tl ih => intro t h; exact ih _ (trHead_cols_nodup tbl t _ h)
+  exact this hs {} (by simp)
+
+/-- a family of (language, columns) entries with distinct languages and duplicate-free columns yields distinct triples -/
+theorem nodup_missing_flatMap (sheet : String) (cols : Str → List Str) : ∀ (ls : List Str), ls.Nodup →
+    (∀ l, (cols l).Nodup) → (ls.flatMap fun l => (cols l).map fun c => W.missingTr sheet.toList l c).Nodup := by
+  intro ls hls hc
+  unfold List.Nodup
+  rw [List.pairwise_flatMap]
+  constructor
+  · intro l _
+    exact List.Pairwise.map _ (fun a b hab h => hab (by injection h)) (hc l)
+  · exact List.Pairwise.imp (fun {a b} hab x hx y hy => by
+      simp only [List.mem_map] at hx hy
+      obtain ⟨c1, _, rfl⟩ := hx
+      obtain ⟨c2, _, rfl⟩ := hy
+      intro h; injection h with _ h2 _; exact hab h2) hls
+
+theorem nodup_missingDue (sheet : String) (ps : List (Str × Str)) : (missingDue sheet ps).Nodup := by
+  unfold missingDue
+  exact nodup_missing_flatMap sheet (fun l => (dedup (ps.map (·.1))).filter fun c => trMissing ps l c) _
+    (nodup_dedup _) (fun l => List.Nodup.sublist List.filter_sublist (nodup_dedup _))
+
+theorem missingToW_filterMap (sheet : String) (g : Str × List Str → Option (Str × List Str))
+    (F : Str × List Str → List Str)
+    (hg : ∀ e, (F e = [] ∧ g e = none) ∨ g e = some (e.1, F e)) : ∀ (seen : List (Str × List Str)),
+    missingToW sheet (seen.filterMap g) =
+      seen.flatMap fun e => (F e).map fun c => W.missingTr sheet.toList e.1 c
+  | [] => rfl
+  | e :: rest => by
+    have ih := missingToW_filterMap sheet g F hg rest
+    unfold missingToW at ih ⊢
+    rcases hg e with ⟨h1, h2⟩ | h2
+    · rw [List.filterMap_cons, h2, List.flatMap_cons, h1, ih]; rfl
+    · rw [List.filterMap_cons, h2, List.flatMap_cons, List.flatMap_cons, ih]
+
+theorem nodup_missingToW (sheet : String) (t : Tr) (hk : (t.seen.map (·.1)).Nodup) (hc : t.cols.Nodup) :
+    (missingToW sheet (findMissing t)).Nodup := by
+  unfold findMissing
+  split
+  · simp [missingToW]
+  · rw [missingToW_filterMap sheet _ (fun e => t.cols.filter (fun c => !e.2.contains c))
+      (by
+        intro e
+        cases h : t.cols.filter (fun c => !e.2.contains c) with
+        | nil => left; exact ⟨rfl, by simp only [h]⟩
+        | cons a m => right; simp only [h])]
+    unfold List.Nodup
+    rw [List.pairwise_flatMap]
+    constructor
+    · intro e _
+      exact List.Pairwise.map _ (fun a b hab h => hab (by injection h))
+        (List.Nodup.sublist List.filter_sublist hc)
+    · have hk' : t.seen.Pairwise (fun a b => a.1 ≠ b.1) := by
+        unfold List.Nodup at hk; rwa [List.pairwise_map] at hk
+      exact List.Pairwise.imp (fun {a b} hab x hx y hy => by
+        simp only [List.mem_map] at hx hy
+        obtain ⟨c1, _, rfl⟩ := hx
+        obtain ⟨c2, _, rfl⟩ := hy
+        intro h; injection h with _ h2 _; exact hab h2) hk'
+
+
+end Multiset
+
 end Pyxv.Warn
